@@ -1,6 +1,7 @@
 mod conc;
 mod http;
 mod node;
+mod oplog;
 mod seq;
 
 fn main() {
@@ -12,6 +13,7 @@ fn main() {
     let rest = &args[2..];
     match args[1].as_str() {
         "seq" => seq::main(rest),
+        "oplog" => oplog::main(rest),
         "probe-load" => seq::probe_load(rest),
         "http" => http::main(rest),
         "conc" => conc::main(rest),
